@@ -49,3 +49,21 @@ Example lone_false_panics : load_d4 [DFalse] 2 = None /\ load_d4 [DFalse] 0 = So
 Proof. split; vm_compute; reflexivity. Qed.
 Example dead_root_panics : load_d4 [DAnd; DFalse; DEdge 1 2 []] 0 = None.
 Proof. vm_compute. reflexivity. Qed.
+
+(* d4's root idiom for a tautology (repair F12), as dumped by the patched implementation
+   (harness kind ld4, hand cases "or root, unlabelled true child" / "d4 root idiom ..") *)
+Example tautology_loads :
+  load_lines ["o 1 0"; "t 2 0"; "1 2 0"]%string 0 = Some ([TrueN], 0%nat) /\
+  load_lines ["o 1 0"; "t 2 0"; "1 2 0"]%string 1 =
+    Some ([Lit 1; Lit (-1); Or [1; 0]%nat; And [2]%nat], 1%nat) /\
+  load_lines ["o 1 0"; "t 2 0"; "1 2 0"]%string 3 =
+    Some ([Lit 1; Lit (-1); Or [1; 0]%nat; Lit 2; Lit (-2); Or [4; 3]%nat; Lit 3; Lit (-3);
+           Or [7; 6]%nat; And [8; 5; 2]%nat], 3%nat).
+Proof. repeat split; vm_compute; reflexivity. Qed.
+(* nested or -> or -> t, and an or -> t below an and node *)
+Example nested_or_true_loads :
+  load_lines ["o 1 0"; "o 2 0"; "o 3 0"; "t 4 0"; "3 4 0"; "2 3 0"; "1 2 0"]%string 1 =
+    Some ([Lit 1; Lit (-1); Or [1; 0]%nat; And [2]%nat], 1%nat) /\
+  load_lines ["o 1 0"; "a 2 0"; "o 3 0"; "t 4 0"; "3 4 0"; "2 3 0"; "1 2 1 0"; "1 4 -1 0"]%string 1 =
+    Some ([Lit 1; And []; And [1; 0]%nat; Lit (-1); And [3]%nat; Or [4; 2]%nat], 1%nat).
+Proof. split; vm_compute; reflexivity. Qed.
